@@ -542,6 +542,9 @@ def call_function(E, q, args, kwargs, st, fr, node, is_init=False):
     fn = E.prog.func(q)
     argmap = bind_params(E, q, fn, args, kwargs, st, fr)
     c = E.spec.fns.get(q)
+    top = E.spec.fns.get(getattr(E, "verifying", "") or "")
+    if top is not None and q in top.weak_calls and not fr.spec:
+        return havoc_call(E, q, c, st, fr, node)
     if any(isinstance(n, (ast.Yield, ast.YieldFrom)) for n in ast.walk(fn)):
         return create_generator(E, q, c, argmap, st, fr, node)
     if c is not None:
@@ -587,6 +590,37 @@ def call_function(E, q, args, kwargs, st, fr, node, is_init=False):
     if ret is None:
         raise CheckerError(f"{q}: return values of different shapes cannot be merged")
     return ret
+
+
+def havoc_call(E, q, c, st, fr, node):
+    """The callee may do anything: every heap location changes arbitrarily, it may allocate, return any value of its
+    declared type or raise.  Trivially valid for every function - used where a caller's clause does not depend on it."""
+    from .engine import V, Outcome, fresh
+    E.abstracted.add(f"call to {q} treated as 'may do anything' (havoc of the whole heap) in the proof of {E.verifying}")
+    keys = set(st.heap) | set(E.heap0)
+    olda = E.alloc(st)
+    for key in keys:
+        if key == ("alloc",):
+            continue
+        st.heap[key] = fresh("any_" + str(key[0]), E.h(st, key).sort())
+        st.note_write(key, None)
+    newa = fresh("any_alloc", olda.sort())
+    st.heap[("alloc",)] = newa
+    st.note_write(("alloc",), None)
+    r = fresh("r", ty.RefSort)
+    st.assume(z3.ForAll([r], z3.Implies(z3.Select(olda, r), z3.Select(newa, r)), patterns=[z3.Select(olda, r)]))
+    E.wf_keys(st, [k for k in keys if k != ("alloc",)])
+    es = st.copy()
+    sel = fresh("raised", z3.BoolSort())
+    es.assume(sel, True)
+    fr.exc.append(Outcome("raise", es, None, "Exception", f"{q}"))
+    st.assume(z3.Not(sel), True)
+    if c is not None and c.returns is not None and c.returns.kind != "none":
+        res = V(c.returns, fresh("any_res", ty.zsort(c.returns)))
+        if ty.is_reflike(c.returns):
+            st.assume(z3.Or(res.z == ty.null, z3.Select(newa, res.z)))
+        return res
+    return V(NONE, ty.null)
 
 
 def create_generator(E, q, c, argmap, st, fr, node):
